@@ -369,6 +369,46 @@ func minLevel(r *rnode, cur int8) int8 {
 	return lInvalid
 }
 
+// hasAllEnabler: some level filter of the tree is the function enabler that also enables
+// out-of-range levels; LevelOf cannot see below Debug through a function enabler.
+func hasAllEnabler(r *rnode) bool {
+	if (r.k == kObs || r.k == kIO || r.k == kIncr) && r.e == eAll {
+		return true
+	}
+	for _, c := range r.kids {
+		if hasAllEnabler(c) {
+			return true
+		}
+	}
+	return false
+}
+
+// trueMin is the smallest of all 256 level values that is delivered somewhere (lInvalid if none is).
+func trueMin(r *rnode, cur int8) int8 {
+	for l := -128; l <= 127; l++ {
+		if accept(r, int8(l), cur) {
+			return int8(l)
+		}
+	}
+	return lInvalid
+}
+
+// levelOK: is got an acceptable "reported minimum level" of the subtree? Without function
+// enablers that enable out-of-range levels it has to be the smallest level delivered anywhere
+// (the smallest NAMED one, or lInvalid, when nothing below Debug is delivered). With such an
+// enabler in the tree anything between the true minimum and the smallest named level that is
+// itself delivered is consistent with the delivery.
+func levelOK(r *rnode, got, cur int8) bool {
+	named, tm := minLevel(r, cur), trueMin(r, cur)
+	if tm >= lDebug || tm == named {
+		return got == named
+	}
+	if !hasAllEnabler(r) {
+		return got == tm
+	}
+	return got >= tm && got <= named && (got == lInvalid || accept(r, got, cur))
+}
+
 // incrValid: NewIncreaseLevelCore must fail exactly when the new enabler admits
 // a named level that the wrapped core does not.
 func incrValid(child *rnode, e int, cur int8) bool {
